@@ -1,9 +1,9 @@
 mod cmd_backend;
+mod cmd_focus;
 mod cmd_stages;
 mod consts;
 mod pipe;
 mod cmd_genfun;
-mod consts;
 mod gen_fun;
 mod gen_fun_ast;
 mod rec;
@@ -83,6 +83,7 @@ fn main() {
         }
         "pm" => cmd_pm(num(2, 1), num(3, 100) as usize, &mut *out),
         "stages" => cmd_stages::cmd_stages(num(2, 1), num(3, 0) as usize, args.get(5..).unwrap_or(&[]), &mut *out),
+        "focus" => cmd_focus::cmd_focus(num(2, 1), num(3, 0) as usize, args.get(5..).unwrap_or(&[]), &mut *out),
         c => { eprintln!("unknown command {c}"); std::process::exit(2); }
     }
     out.flush().unwrap();
